@@ -240,12 +240,17 @@ Ltac finish_post := repeat split; try fin; try discriminate; try (intros [X|X]; 
 Ltac fin0 := first [assumption | reflexivity | lra | (apply Rabs_le; lra) | (unfold Rsqr in *; lra) | nra].
 
 Theorem trap_gen_wf c0 vm ac de p0 p1 v0 v1 :
-  vm <> 0 -> trap_feasible ac de p0 p1 ->
+  trap_feasible ac de p0 p1 ->
   trap_gen_post vm ac de p0 p1 v0 v1 (trap_gen_b R_ops c0 vm ac de p0 p1 v0 v1).
 Proof.
-  intros Hvm Hf.
+  intros Hf.
   pose proof (clamp_range v0 vm) as Hw0. pose proof (clamp_range v1 vm) as Hw1.
-  assert (HV : 0 < Rabs vm) by (apply Rabs_pos_lt; assumption).
+  destruct (Req_dec (Rabs vm) 0) as [Hz|Hnz].
+  { (* a zero velocity limit: the generator returns 0 *)
+    unfold trap_gen_post. gen_unfold. unfold_ops. rewrite !abs_if.
+    destruct (Reqb_spec ac de) as [E|_]; [intros; lra|].
+    destruct (Reqb_spec (Rabs vm) 0) as [_|?]; [intros; lra|contradiction]. }
+  assert (HV : 0 < Rabs vm) by (pose proof (Rabs_pos vm); lra).
   assert (Hne : ac - de <> 0 /\ ac <> 0 /\ de <> 0 /\ Rabs vm <> 0) by (destruct Hf as [(?&?&?)|(?&?&?)]; repeat split; lra).
   assert (Hdir : exists s : bool, Rltb (p1 - p0) 0 = s /\
              forall X, dirn X (if s then - X else X) ac de (p1 - p0)).
@@ -258,6 +263,7 @@ Proof.
   set (V := Rabs vm) in *. set (w0 := clampR v0 vm) in *. set (w1 := clampR v1 vm) in *.
   set (vc2 := (w1 * w1 * ac - w0 * w0 * de - 2 * (p1 - p0) * ac * de) / (ac - de)).
   destruct (Reqb_spec ac de) as [E|_]; [lra|].
+  destruct (Reqb_spec V 0) as [E|_]; [lra|].
   destruct (Rleb_spec vc2 0) as [C0|C0]; [intros; lra|].
   destruct (Rltb_spec (V * V) vc2) as [C1|C1].
   - (* cruise *)
